@@ -138,8 +138,9 @@ def dump_one(f: TextIO, data: IOData):
 
     # Write header
     nactive = one_mo.shape[0]
-    nelec = data.nelec or 0
-    spinpol = data.spinpol or 0
+    # nelec and spinpol are floats in IOData; FCIDUMP stores integers.
+    nelec = int(np.round(data.nelec or 0))
+    spinpol = int(np.round(data.spinpol or 0))
     print(f" &FCI NORB={nactive:d},NELEC={nelec:d},MS2={spinpol:d},", file=f)
     print(f"  ORBSYM= {','.join('1' for v in range(nactive))},", file=f)
     print("  ISYM=1", file=f)
